@@ -7,11 +7,39 @@
 #include "hashchain.c"
 #include "signature.c"
 #include "contracts/verification_rule_c01_loops.h"
+#ifdef VL_MODE_CALALG
+/* INT-16, bounded stand-in (plain mode): calendar chain of at most 4 links; ASSUMED stub of KSI_checkHashAlgorithmAt:
+ * the status of algorithm id a (0..3) at the publication time is the arbitrary value g_ca_status[a]; the stub asserts
+ * that the rule asks about the calendar chain's publication time */
+KSI_HashChainLink g_ca_link[4]; size_t g_ca_n; KSI_LIST(KSI_HashChainLink) g_ca_list; int g_ca_status[4];
+static size_t ca_length(KSI_LIST(KSI_HashChainLink) *l) { return g_ca_n; }
+static int ca_elementAt(KSI_LIST(KSI_HashChainLink) *l, size_t pos, KSI_HashChainLink **o) {
+	if (pos >= g_ca_n) return KSI_BUFFER_OVERFLOW;
+	*o = &g_ca_link[pos]; return KSI_OK;
+}
+int KSI_checkHashAlgorithmAt(KSI_HashAlgorithm algo_id, time_t used_at) {
+	__CPROVER_assert(used_at == (time_t)vr_u64(g_vr_cal.publicationTime), "the algorithm is judged at the calendar chain's publication time");
+	__CPROVER_assert(algo_id >= 0 && algo_id < 4, "algorithm id of a link of this world");
+	return g_ca_status[algo_id] == 0 ? KSI_OK : g_ca_status[algo_id] == 1 ? KSI_HASH_ALGORITHM_DEPRECATED : g_ca_status[algo_id] == 2 ? KSI_HASH_ALGORITHM_OBSOLETE : KSI_UNKNOWN_HASH_ALGORITHM_ID;
+}
+#endif
 #include "verification_rule.c"
 
+/* VL_PLAIN: no function-contract instrumentation; the harness asserts the same postcondition itself (no frame check).
+ * The RFC3161 pre-check cannot be replaced by its contract then: signatures without RFC3161 record only. */
+#ifdef VL_PLAIN
+#define VL_PLAIN_INIT g_vr_sig.rfc3161 = NULL;
+#define VL_CHECK(v) \
+	__CPROVER_assert(result == NULL ? res == KSI_INVALID_ARGUMENT : VR_OUTCOME((v), res, result), "postcondition: outcome == verdict of the monitor"); \
+	__CPROVER_assert(IMPLIES(result != NULL && VR_INFO_OK(info) && res == KSI_OK && result->resultCode == KSI_VER_RES_OK, \
+		g_vl_calls == VL_N_EFF(info->signature) && !g_vl_fail && !g_vl_na), "postcondition: OK only after every chain was inspected");
+#else
+#define VL_PLAIN_INIT
+#define VL_CHECK(v)
+#endif
 #define VL_CALL(RULE) \
 	KSI_VerificationContext *info; KSI_RuleVerificationResult *result; int res; \
-	vl_world_init(); \
+	vl_world_init(); VL_PLAIN_INIT \
 	info = VR_OPT(&g_vr_info); result = VR_OPT(&g_vr_res); \
 	res = RULE(info, result); \
 	REACH("returned"); \
@@ -38,8 +66,8 @@ void harness(void) {
 }
 #endif
 #ifdef VL_MODE_IDX
-void harness(void) { VL_CALL(KSI_VerificationRule_AggregationHashChainIndexContinuation) VL_REACH_FAIL(KSI_VER_ERR_INT_12, "FAIL INT-12")
-	if (res == KSI_OK && result->resultCode == KSI_VER_RES_OK && g_vl_calls >= 2 && g_vi_calls > 2) REACH("OK with more than two common index positions");
+void harness(void) { VL_CALL(KSI_VerificationRule_AggregationHashChainIndexContinuation) VL_CHECK(vl_exp_walk(info, 1, SPEC_VERR_INT(12))) VL_REACH_FAIL(KSI_VER_ERR_INT_12, "FAIL INT-12")
+	if (res == KSI_OK && result->resultCode == KSI_VER_RES_OK && g_vl_calls >= 2 && g_vi_calls >= 2) REACH("OK with two or more common index positions");
 	if (res == KSI_OK && result->resultCode == KSI_VER_RES_FAIL && g_vi_calls > 0) REACH("FAIL INT-12 on an index element");
 }
 #endif
@@ -62,5 +90,31 @@ void harness(void) { KSI_CTX *ctx; const KSI_Signature *sig; int res;
 	if (res == KSI_VERIFICATION_FAILURE && g_ri_len[0] != g_ri_len[1]) REACH("lengths differ");
 	if (res == KSI_VERIFICATION_FAILURE && g_ri_mismatch && g_ri_calls > 2) REACH("an element differs");
 	if (res != KSI_OK && res != KSI_VERIFICATION_FAILURE && ctx != NULL && sig != NULL) REACH("no first chain");
+}
+#endif
+#ifdef VL_MODE_CALALG
+void harness(void) {
+	KSI_VerificationContext *info; KSI_RuleVerificationResult *result; int res, k; spec_verdict v = SPEC_VOK;
+	vr_world_init();
+	g_ca_n = nondet_size() % 5; g_ca_list.length = ca_length; g_ca_list.elementAt = ca_elementAt;
+	for (k = 0; k < 4; k++) {
+		g_ca_link[k].ctx = VR_CTX; g_ca_link[k].isLeft = nondet_int(); g_ca_link[k].imprint = VR_OPT(&g_vr_h[k]); g_vr_h_alg[k] &= 3;
+		g_ca_link[k].levelCorrection = NULL; g_ca_link[k].legacyId = NULL; g_ca_link[k].metaData = NULL;
+		g_ca_status[k] = nondet_int() & 3;
+	}
+	g_vr_cal.hashChain = VR_OPT(&g_ca_list);
+	info = VR_OPT(&g_vr_info); result = VR_OPT(&g_vr_res);
+	res = KSI_VerificationRule_CalendarChainHashAlgorithmObsoleteAtPubTime(info, result);
+	/* reference: the first LEFT link decides - no imprint: not computable; algorithm obsolete at publication time: FAIL INT-16 */
+	if (!VR_INFO_OK(info) || g_vr_sig.calendarChain == NULL || g_vr_cal.hashChain == NULL) v = SPEC_VNA;
+	else for (k = 0; k < 4; k++) if ((size_t)k < g_ca_n && v.kind == SPEC_V_OK && g_ca_link[k].isLeft) {
+		if (g_ca_link[k].imprint == NULL) v = SPEC_VNA;
+		else if (spec_alg_obsolete_rule_fails(g_ca_status[vr_alg(g_ca_link[k].imprint)])) v = SPEC_VFAIL(SPEC_VERR_INT(16));
+	}
+	__CPROVER_assert(result == NULL ? res == KSI_INVALID_ARGUMENT : VR_OUTCOME(v, res, result), "postcondition: outcome == reference verdict over the calendar links");
+	REACH("returned");
+	if (res == KSI_OK && result != NULL && result->resultCode == KSI_VER_RES_OK && g_ca_n == 4) REACH("verdict OK for four links");
+	if (res == KSI_OK && result != NULL && result->resultCode == KSI_VER_RES_FAIL && result->errorCode == KSI_VER_ERR_INT_16) REACH("FAIL INT-16");
+	if (result != NULL && result->resultCode == KSI_VER_RES_NA) REACH("verdict NA / error status");
 }
 #endif
